@@ -16,7 +16,7 @@ def execute(case):
         from cloudsync.tests.fixtures.mock_storage import MockStorage
         from cloudsync.types import FILE, DIRECTORY, IgnoreReason
         ps = bool(case.get("path_style"))
-        provs = (MockProvider(ps, True), MockProvider(False, True))
+        provs = (MockProvider(ps, not case.get("ci")), MockProvider(False, True))
         for p in provs:
             p.connect({"key": "val"})
         storage = MockStorage({})
